@@ -9,4 +9,7 @@ var verifHarnesses = map[string]func(){
 	"VerifC15Load": VerifC15Load,
 	"VerifC19History": VerifC19History,
 	"VerifC05Crash": VerifC05Crash,
+	"VerifC09Isolation": VerifC09Isolation,
+	"VerifC10Mixed": VerifC10Mixed,
+	"VerifC11Abort": VerifC11Abort,
 }
